@@ -1,6 +1,8 @@
 package checks
 
 import (
+	"strings"
+
 	"verif/harness/core"
 	"verif/harness/gen"
 )
@@ -33,6 +35,11 @@ func C13(tier string) {
 	bad := map[string]bool{}
 	for _, k := range core.LoadKnown("C01") {
 		bad[k.Sig] = true
+		if strings.Contains(k.Sig, ">") && !strings.HasPrefix(k.Sig, "*") {
+			for _, l := range strings.Split(k.Sig, ">") {
+				bad[l] = true // links of the closure family, see c01.go
+			}
+		}
 	}
 	var okPlain []string
 	for _, l := range plain {
